@@ -27,6 +27,7 @@ type worldOpts struct {
 	tcpListener     bool
 	hosts           map[string]string // static host table
 	routes          [][3]string       // protocol, dest pattern, next hop
+	holdLoop        bool              // do not start the message loop yet (messages queue up as under load); start it with startLoop
 }
 
 type world struct {
@@ -80,7 +81,9 @@ func newWorld(o worldOpts) *world {
 	item := &ProxyItem{transports: []ServerTransport{w.listener}, backend: w.rr, msgHandler: p}
 	p.AddItem(item)
 	w.p = p
-	go p.receiveAndProcessMessage()
+	if !o.holdLoop {
+		go p.receiveAndProcessMessage()
+	}
 	for i := 0; i < o.nBackends; i++ {
 		b := &vBackend{addr: "10.0.1." + itoa(i+1) + ":5060"}
 		w.bs = append(w.bs, b)
@@ -88,6 +91,12 @@ func newWorld(o worldOpts) *world {
 	}
 	rt.Quiesce()
 	return w
+}
+
+// startLoop starts the message loop of a world created with holdLoop.
+func (w *world) startLoop() {
+	go w.p.receiveAndProcessMessage()
+	rt.Quiesce()
 }
 
 // deliver decodes text with the repository's decoder and hands it to the proxy's message loop
